@@ -865,6 +865,20 @@ Section Proofs.
     p_func base (l :: r) x = xadd (Fin (2 * (k * lh _ _ l ^ ln _ _ l) * Rmax 0 c)) (p_func base r x).
   Proof. intros K Ek Hc. by_simple K Ek Hc. Qed.
 
+
+  (* the growth factor is raised to the CURRENT iteration: after iter() / iter(i) the same formula holds with the
+     new counter, at every nesting level (the inner value is that of the iterated inner stack) *)
+  Theorem iter_then_value base l r x k c (i : option nat) :
+    simple (lk _ _ l) -> lmul _ _ l = Some k -> lcond _ _ l x = CV c ->
+    p_func base (p_iter NumR X i (l :: r)) x =
+      xadd (Fin (simple_amount (lk _ _ l) (k * lh _ _ l ^ (match i with None => S (ln _ _ l) | Some j => j end)) c))
+           (p_func base (p_iter NumR X i r) x).
+  Proof.
+    intros Hs Ek Hc. cbn [p_iter map].
+    rewrite (simple_value_is_formula base (iter1 NumR X i l) (map (iter1 NumR X i) r) x k c); try assumption.
+    reflexivity.
+  Qed.
+
 End Proofs.
 
 (* ---------------------------------------------------------------- constraints.as_penalty *)
